@@ -57,6 +57,8 @@ NARY_MUL = {
     "true_divide": (lambda f, a, b: f.true_divide(a, b), -1),
 }
 del NARY_KEEP["clip_hi"]
+COMMUTATIVE = {k: NARY_KEEP[k] for k in ("add", "maximum", "minimum", "fmax")}
+COMMUTATIVE["multiply"] = NARY_MUL["multiply"][0]
 
 
 def _raw(x):
@@ -70,14 +72,15 @@ def _raw(x):
     return x
 
 
-UNIT_SETS = [("m", "m"), ("m", "cm"), ("cm", "km"), ("g", "M_sun"), ("m", "s"), ("g/cm**3", "erg"), ("dimensionless", "dimensionless")]
+UNIT_SETS = [("m", "m"), ("m", "cm"), ("cm", "km"), ("g", "M_sun"), ("m", "s"), ("g/cm**3", "erg"), ("dimensionless", "dimensionless"),
+             ("percent", "dimensionless"), ("cm/m", "percent")]
 SECOND_KIND = ["Array", "Quantity", "ndarray", "number", "ndarray_first", "Quantity_first"]
 
 
 def cases(thorough):
     dts = ["f8", "f4", "i8", "i4"]
     shapes = ["3", "2x3", "1"] + (["0d"] if thorough else [])
-    units1 = ["m", "cm", "M_sun", "g/cm**3", "km/s", "dimensionless", "yr"]
+    units1 = ["m", "cm", "M_sun", "g/cm**3", "km/s", "dimensionless", "yr", "percent", "deg"]
     for name in list(UNARY_KEEP) + list(UNARY_PRED) + list(UNARY_POW):
         for dt in dts:
             for sh in shapes:
@@ -204,16 +207,44 @@ def run_case(acc, idx, c):
             b = 2.0
             v2 = np.float64(2.0)
         first_is_array = kind not in ("ndarray_first", "Quantity_first")
+        if kind == "Quantity_first" and tuple(d1) == tuple(M2.dims_of()) and (c["u1"], c["u2"]) != ("dimensionless", "dimensionless"):
+            # numpy hands the call to pint (first operand), which takes the osyris Array for plain numbers when its own unit has no
+            # dimension and returns a Quantity wrapped around an Array: not a call "on Arrays" that osyris gets to answer
+            return "skipped-pint-dispatch-on-pure-numbers", False
         x, y = (a, b) if first_is_array else (b, a)
         P1 = v1.astype(np.float64) * s1
         # a bare operand is taken in the Array's unit (or refused); a unit-carrying one has its own
         P2 = np.asarray(v2, dtype=np.float64) * (s2 if carries else s1)
         dd2 = d2 if carries else d1
+        if not carries and name in ("add", "subtract") and tuple(d1) == tuple(M2.dims_of()):
+            # x + k is defined by the operators (C02): a bare number added to a pure-number Array is a pure number, whatever
+            # the scale of the Array's unit (1 % + 3 = 3.01); numpy's add/subtract are those operators
+            P2 = np.asarray(v2, dtype=np.float64)
         X, Y = (P1, P2) if first_is_array else (P2, P1)
         compatible = tuple(d1) == tuple(dd2)
         tol = _arr.eps_for(dt) + t1 + (t2 if carries else 0.0)
         may_raise = (not carries) or kind == "Quantity_first"
         label_kind = kind if not carries else ("unit-carrying" if kind == "Array" else kind)
+        if name in COMMUTATIVE and kind in ("Array", "ndarray", "number", "ndarray_first"):
+            # metamorphic: a commutative function refuses in both orders or gives the same physical quantity in both
+            from .C02 import result_phys as _rp
+
+            def outcome(f):
+                try:
+                    with np.errstate(all="ignore"):
+                        r = f()
+                except Exception:
+                    return ("raises",)
+                q = _rp(r)
+                return ("value", q[0], tuple(q[1])) if q is not None else ("other", repr(r)[:60])
+
+            fcom = COMMUTATIVE[name]
+            o1, o2 = outcome(lambda: fcom(np, x, y)), outcome(lambda: fcom(np, y, x))
+            same_outcome = o1[0] == o2[0] and (o1[0] != "value" or (o1[2] == o2[2] and _arr.close(o1[1], o2[1], tol + 1e-12)))
+            if not same_outcome:
+                acc.violation(f"C10:result-depends-on-operand-order:{name}:{label_kind.replace('_first', '')}", idx, c,
+                              {"f(x,y)": o1[0], "f(y,x)": o2[0], "values": [np.ravel(o[1])[:3].tolist() if o[0] == "value" else None for o in (o1, o2)]})
+                return "order-dependent", True
         if name in NARY_KEEP:
             fn = NARY_KEEP[name]
             if name == "where_nd_cond":
